@@ -8,6 +8,7 @@ Branch output is always attributable: every value a branch emits is a pair (tag,
 tag = "b<position>".
 """
 import copy
+import itertools
 
 import lena.core
 import lena.flow
@@ -205,7 +206,109 @@ ORDER = ["seq_map", "fc_sum", "src", "seq_marker", "fr_req", "fc_stop", "fr_stop
          "fc_acc", "fr2_seq", "fr1_tuple", "seq_sum", "fr_stop_tuple"]
 assert sorted(ORDER) == sorted(FACTORIES)
 
-PER_VALUE = ("seq_map", "seq_filter")     # per-value (map / filter) branches
+
+# --------------------------------------------------------------------------------------------------
+# further FORMS of a branch (the four kinds stay the same): an instance of a user subclass of the
+# documented sequence class, and a Split given as a branch of a Split
+
+class SubSource(lena.core.Source):
+    """User subclass of Source: its instances are Sources."""
+
+
+class SubFillComputeSeq(lena.core.FillComputeSeq):
+    """User subclass of FillComputeSeq."""
+
+
+class SubFillRequestSeq(lena.core.FillRequestSeq):
+    """User subclass of FillRequestSeq."""
+
+
+class SubSequence(lena.core.Sequence):
+    """User subclass of Sequence."""
+
+
+class InTagger(object):
+    """Final element of branch *k* of a Split that is itself branch *tag*: value -> (tag, (k, value))."""
+
+    def __init__(self, tag, k):
+        self.tag, self.k = tag, "in%d" % k
+
+    def __call__(self, value):
+        return (self.tag, (self.k, value))
+
+
+class InReq(ReqEl):
+    """ReqEl as branch *k* of a nested Split."""
+
+    def __init__(self, tag, k):
+        super(InReq, self).__init__(tag)
+        self.k = "in%d" % k
+
+    def request(self):
+        for t, payload in super(InReq, self).request():
+            yield (t, (self.k, payload))
+
+
+FACTORIES.update({
+    "src_sub": (SOURCE, "subclass", False,
+                lambda tag, j: SubSource(Gen(), Tagger(tag))),
+    "fc_sub": (FC, "subclass", False,
+               lambda tag, j: SubFillComputeSeq(lena.math.Sum(), Tagger(tag))),
+    "fr_sub": (FR, "subclass", False,
+               lambda tag, j: SubFillRequestSeq(_fr_adapter(2), Tagger(tag),
+                                                reset=False, buffer_input=True)),
+    "seq_sub": (SEQ, "subclass", False,
+                lambda tag, j: SubSequence(_add100, Tagger(tag))),
+})
+SUBCLASS_FORMS = ["seq_sub", "fc_sub", "src_sub", "fr_sub"]
+
+# inner branches of a nested Split: one per kind
+_INNER = {
+    "seq_map": (SEQ, lambda tag, k: (_add100, InTagger(tag, k))),
+    "fc_sum": (FC, lambda tag, k: (lena.math.Sum(), InTagger(tag, k))),
+    "fr_req": (FR, lambda tag, k: InReq(tag, k)),
+    "src": (SOURCE, lambda tag, k: lena.core.Source(Gen(), InTagger(tag, k))),
+}
+INNER_ORDER = ["seq_map", "fc_sum", "fr_req", "src"]
+
+
+def nested_name(inner):
+    return "split(%s)" % "+".join(inner)
+
+
+def _nested_kind(inner):
+    """Kind of a Split used as a branch, from the Split docstring: with a common fill/compute
+    (fill/request) type it 'can be used as a FillCompute (FillRequest) sequence'; an empty Split
+    'acts as an empty Sequence'; with branches of different kinds it has only the method run, i.e.
+    it is an element of a plain Sequence branch. (A Split of Sources only is left out of the
+    alphabet: callable, but not 'a Source explicitly' - the statement does not say which it is.)"""
+    kinds = set(_INNER[nm][0] for nm in inner)
+    if kinds == {FC}:
+        return FC
+    if kinds == {FR}:
+        return FR
+    return SEQ
+
+
+def _nested_builder(inner):
+    def build_nested(tag, j):
+        return lena.core.Split([_INNER[nm][1](tag, k) for k, nm in enumerate(inner)])
+    return build_nested
+
+
+NESTED_FORMS = []
+for _k in range(3):
+    for _inner in itertools.product(INNER_ORDER, repeat=_k):
+        if _inner and set(_inner) == {"src"}:
+            continue
+        FACTORIES[nested_name(_inner)] = (_nested_kind(_inner), "split", False, _nested_builder(_inner))
+        NESTED_FORMS.append(nested_name(_inner))
+
+# the forms beyond ORDER, simplest first
+FORMS = SUBCLASS_FORMS + NESTED_FORMS
+assert sorted(ORDER + FORMS) == sorted(FACTORIES)
+
+PER_VALUE = ("seq_map", "seq_filter", "seq_sub")     # per-value (map / filter) branches
 
 
 def kind_of(name):
